@@ -326,6 +326,30 @@ class Script(object):
         return None
 
 
+class LateCloseScript(Script):
+    """The cooperative peer, except that the completion of a close the agent asked for is delivered as
+    late as the model allows (only when nothing else can happen at this instant): connect results and
+    peer messages overtake it. Deviations from it reach the races between an old connection's
+    connectionLost and whatever the agent started in the meantime."""
+    def default(self, w):
+        dis = w.disconnecting()
+        if not dis:
+            return Script.default(self, w)
+        ll = w.live_list()
+        con = w.connecting()
+        if con:
+            return ('CONN_OK', ll.index(con[0]))
+        rd = w.readable()
+        if rd:
+            c = rd[-1]
+            a_open, a_ka, p_open, p_ka = self.exchanged(c.transport)
+            if a_open and not p_open:
+                return ('RX', ll.index(c), self.open_name)
+            if p_open and a_ka and not p_ka:
+                return ('RX', ll.index(c), self.ka_name)
+        return ('CLOSE_DONE', ll.index(dis[0]))
+
+
 class SilentScript(Script):
     """A peer that never answers: pending connects run into their timeout, nothing is ever sent.
     Closes the agent asked for still complete. Deviations from it reach the long, quiet schedules
@@ -353,7 +377,7 @@ class RefuseScript(Script):
         return None
 
 
-SCRIPTS = {'coop': Script, 'silent': SilentScript, 'refuse': RefuseScript}
+SCRIPTS = {'coop': Script, 'lateclose': LateCloseScript, 'silent': SilentScript, 'refuse': RefuseScript}
 
 
 def run_script(w, harness, script, max_steps=80, until=None, mon=None, on_step=None):
